@@ -52,7 +52,7 @@ class Agg:
             "configs": {}, "faults_fired": {}, "probes": {}, "census_at_cancel": {},
             "census_at_failed_pull": {}, "api_calls": {}, "nontrivial": [], "interleavings": [],
             "live_set_fingerprints": [], "samples": [], "known_hits": {}, "scon_notes": 0,
-            "cli": {},
+            "cli": {}, "elfutils_internal_leak_records_ignored": 0,
         }
         self._nt = set()
         self._il = set()
@@ -67,6 +67,7 @@ class Agg:
         if o.other is not None:
             k = getattr(o.other, "klass_str", o.other.oracle)
             d["other_oracle_hits"][k] = d["other_oracle_hits"].get(k, 0) + 1
+        d["elfutils_internal_leak_records_ignored"] += getattr(o, "elfutils_leaks_ignored", 0)
         d["baseline_runs"] += o.baseline_runs
         d["discarded_baseline_timeout"] += o.baseline_timeouts
         resp = o.resp
@@ -215,7 +216,8 @@ def write(prop, tier, seed, m, wall, violations=0, det=None, note=None):
             "pulls", "checked_pulls", "execs", "parses_ok", "parses_rejected", "opens_ok", "opens_failed",
             "failed_pulls", "cancels_of_live_results", "max_live_results", "runs_with_2plus_live_results",
             "runs_with_3plus_live_results", "baseline_runs", "discarded_baseline_timeout", "unjudged_events",
-            "tainted_events_relaxed", "skipped_steps", "scon_notes")},
+            "tainted_events_relaxed", "skipped_steps", "scon_notes",
+            "elfutils_internal_leak_records_ignored")},
         "discarded_runs": m.get("discarded_runs", {}),
         "other_oracle_hits_not_enforced_by_this_check": m.get("other_oracle_hits", {}),
         "known_findings_seen": m.get("known_hits", {}),
